@@ -652,6 +652,10 @@ class DisjFlow(Dataflow):
             a, b = self.eval_in(st, e[2], depth + 1), self.eval_in(st, e[3], depth + 1)
             if a is not None and b is not None:
                 return self._FOLD[e[1]](a, b)
+        if e[0] == "not" and len(e) == 2:
+            a = self.eval_in(st, e[1], depth + 1)
+            if a in (0, 1):
+                return 1 - a
         return None
 
     def states_before_stmt(self, bb, idx):
